@@ -5,9 +5,26 @@
   expiry of the timed wait). Proofs are in Lemmas/MtDec*.lean.
 -/
 import XzVerif.Lemmas.MtDecAlloc2
+import XzVerif.Gen.C07
 
 namespace XzVerif.C07
 open XzVerif.MtDec
+
+-- ---------------------------------------------------------------------------------------------
+-- bridge: the protocol constants of the source (regenerated into Gen/C07.lean on every run) are the model's
+-- ---------------------------------------------------------------------------------------------
+
+theorem gen_chunk_size : Gen.C07.chunkSize = MtDec.chunkSize := by decide
+theorem gen_bufs_limit : Gen.C07.bufsLimitFactor = MtDec.bufsLimitFactor := by decide
+theorem gen_ret_codes : Gen.C07.retOK = OK ∧ Gen.C07.retStreamEnd = END ∧ Gen.C07.retDataError = DATA_ERROR ∧
+    Gen.C07.retProgError = PROG_ERROR ∧ Gen.C07.retTimedOut = TIMED_OUT ∧ Gen.C07.retMemlimitError = 6 := by decide
+/-- worker_state / partial_update_mode have the constructors of `WSt` / `PU` in the same order (the driver compares the
+    numeric value of partial_update), and coder->sequence still has the twelve states the model's `Seq` was written from. -/
+theorem gen_enums : Gen.C07.workerStates = ["THR_IDLE", "THR_RUN", "THR_EXIT"] ∧
+    Gen.C07.partialUpdateModes = ["PARTIAL_DISABLED", "PARTIAL_START", "PARTIAL_ENABLED"] ∧
+    Gen.C07.sequences = ["SEQ_STREAM_HEADER", "SEQ_BLOCK_HEADER", "SEQ_BLOCK_INIT", "SEQ_BLOCK_THR_INIT", "SEQ_BLOCK_THR_RUN",
+      "SEQ_BLOCK_DIRECT_INIT", "SEQ_BLOCK_DIRECT_RUN", "SEQ_INDEX_WAIT_OUTPUT", "SEQ_INDEX_DECODE", "SEQ_STREAM_FOOTER",
+      "SEQ_STREAM_PADDING", "SEQ_ERROR"] := by decide
 
 /-- Every item of the input satisfies the Block decoder contract. -/
 def WFInput (blocks : List Block) : Prop := ∀ b ∈ blocks, b.WF
